@@ -68,7 +68,15 @@ def handle_check(prop, tier, seed):
         rc2, tcov, nh = A.report(prop, [tr], None, T.ordering_table(tr["trace"]), tier, seed, t0, ASSUME_THREADS, evidence=False)
         extra = {"concurrent_part": {k: tcov[k] for k in ("programs", "executions", "evaluations", "distinct_nontrivial", "event_counts", "rule")},
                  "_extra_violations": nh}
-    rc1 = H.report(prop, results, tier, seed, t0, assumptions=ASSUME_HANDLES + (ASSUME_THREADS if prop == "C03" else []), mc=mcinfo, extra_cov=extra)
+    if prop in ("C02", "C04"):
+        # safe code includes safe trait implementations that misbehave: the same fault schedules
+        # as C17, judged for out-of-bounds accesses / wrong frees (C02) and for BytesMut
+        # destinations (C04)
+        rc2, nh, hcov = hostile_part(prop, tier, seed, profiles=("release", "asan") if prop == "C02" else ("release",), tag=prop + "_hostile")
+        extra = {"hostile_part": {k: hcov[k] for k in ("evaluations", "distinct_nontrivial", "fault_schedules_from_model", "builds", "rule")},
+                 "_extra_violations": nh}
+    rc1 = H.report(prop, results, tier, seed, t0, assumptions=ASSUME_HANDLES + (ASSUME_THREADS if prop == "C03" else []) +
+                   (ASSUME_HOSTILE if prop in ("C02", "C04") else []), mc=mcinfo, extra_cov=extra)
     return max(rc1, rc2)
 
 
@@ -148,9 +156,12 @@ def cursor_check(prop, tier, seed):
             ["get_u16", "get_u8", "try_get_u32_le"], [0], 1, simulate=(2500 if q else 40000, 40), take=2500)
         gens.append(K.design_mc("C12_sink_design", 2, 2, 1, [0, 1, 3], ["remaining_mut", "chunk_mut_len", "put_slice", "put_buf"], [], [0],
                                 leaf_types=["slice", "vec", "bytesmut"], wraps=("ref",), side="mut"))
-        gen("mutsim", "mut", 4 if not q else 3, 4, 4, [0, 2, 3], ["put_slice", "write", "set_limit", "remaining_mut", "put_bytes", "put", "put_buf", "chunk_mut_len"],
+        gen("mutsim", "mut", 4 if not q else 3, 4, 4, [0, 2, 3], ["put_slice", "write", "set_limit", "remaining_mut", "has_remaining_mut", "put_bytes", "put", "put_buf", "chunk_mut_len"],
             ["put_u16", "put_u8", "put_u32_le"], [0], 1, simulate=(2500 if q else 40000, 40), take=2500)
         gen("bfs", "buf", 2, 2, 1 if q else 2, [2], ["advance", "read", "set_limit", "copy_to_bytes"], [], [0], 20 if q else 40, take=2500)
+        # every Chain / Limit over fixed and growing leaves (limits inside, at and beyond the room), two operations: fill, then ask
+        gen("mutbfs", "mut", 2, 2, 2, [0, 2], ["put_slice", "has_remaining_mut", "remaining_mut", "chunk_mut_len"], [], [0], 12 if q else 2,
+            take=8000, leaf_types=["slice", "vec"], wraps=())
     if design_progs:
         # replay the design model's own programs: G + V, and D (its predictions vs the recorded results)
         dr = K.run_and_validate("%s_designreplay" % prop, pick(design_progs, 6000 if q else 40000, seed))
@@ -313,13 +324,14 @@ ASSUME_HOSTILE = [
 ]
 
 
-def hostile_check(prop, tier, seed):
+def hostile_part(prop, tier, seed, profiles=("release", "debug", "asan"), tag="C17"):
+    """fault schedules from spec/Hostile.tla + scripted environment objects played against the
+    real consumers, judged by spec/HostileTrace.tla.  Returns (rc, #violations, coverage)."""
     from . import hostile as X
-    t0 = time.time()
     q = tier == "quick"
-    scripts, st = X.model("C17_model", 5 if q else 8, 4 if q else 6, seed)
+    scripts, st = X.model("%s_model" % tag, 5 if q else 8, 4 if q else 6, seed)
     cs = X.cases(scripts, seed, 2500 if q else 60000)
-    results = [X.run("C17_release", cs, "release"), X.run("C17_debug", cs, "debug"), X.run("C17_asan", cs, "asan")]
+    results = [X.run("%s_%s" % (tag, pr), cs, pr) for pr in profiles]
     rc, nnew, shown = 0, 0, set()
     for r in results:
         for v in r["violations"]:
@@ -343,15 +355,23 @@ def hostile_check(prop, tier, seed):
     cov = {
         "evaluations": sum(r["events"] for r in results),
         "distinct_nontrivial": len({(c["consumer"], json.dumps(c["script"]), c["n"], c["d"]) for c in cs}),
-        "rule": "one evaluation = one crate entry point driven with one fault schedule (script of lying remaining()/chunk()/advance()/chunks_vectored() answers "
-                "enumerated by TLC from spec/Hostile.tla, or a lying size hint / owner) in one build; distinct = distinct (consumer, script, sizes)",
+        "rule": "one evaluation = one crate entry point driven with one fault schedule (script of lying / panicking remaining()/chunk()/advance()/"
+                "chunks_vectored() answers enumerated by TLC from spec/Hostile.tla, free-form scripts, or a lying / panicking size hint, iterator or "
+                "owner) in one build; distinct = distinct (consumer, script, sizes)",
         "samples": [{"consumer": c["consumer"], "script": c["script"], "n": c["n"], "d": c["d"]} for c in cs[-3:]],
         "states": st["distinct"], "transitions": st["generated"],
         "fault_schedules_from_model": len(scripts),
         "consumer_and_outcome_counts": counts,
         "crashes_isolated": sum(r["crashes"] for r in results),
+        "builds": list(profiles),
         "exhaustive": False,
     }
+    return rc, nnew, cov
+
+
+def hostile_check(prop, tier, seed):
+    t0 = time.time()
+    rc, nnew, cov = hostile_part(prop, tier, seed)
     C.write_evidence(prop, tier, seed, "fault_enumeration", cov, ASSUME_HOSTILE, time.time() - t0, nnew)
     return rc
 
